@@ -739,6 +739,7 @@ func TestVerif_C25(t *testing.T) {
 	c25Histories(r, e)
 	r.Set("wall_history_s", time.Since(t0).Seconds())
 	r.Require("hist_requests", 200)
+	r.Require("hist_wrong_password_repeated", 40)
 	r.Require("hist_refused_after_decoding_with_good_password", 60)
 	r.Require("hist_password_key_absent", 40)
 	r.Require("hist_forbidden_and_refused", 100)
@@ -1102,6 +1103,11 @@ type c25Hist struct {
 	hashBad  bool
 	hashKind string
 	serial bool // one goroutine drives this handler: requests without "env" can be attributed
+	// round 5 (hist-repeat): the next step is of this kind (-1: PRNG choice); a forced kind 8
+	// presents forcePw again instead of a fresh wrong password
+	forceKind int
+	forcePw   string
+	lastWrong string
 	mu     sync.Mutex
 	held   []*c25Sess
 	trail  []string
@@ -1127,6 +1133,9 @@ func (x *c25Hist) step(rng *verifkit.Rand, si int) {
 	r, e := x.r, x.e
 	// process creation is expensive here: 2 of 16 kinds start a process when a password is configured
 	kind := []int{0, 7, 2, 2, 3, 3, 4, 5, 6, 8, 9, 10, 10, 10, 10, 13}[rng.Intn(16)]
+	if x.forceKind >= 0 {
+		kind = x.forceKind
+	}
 	if kind == 13 { // close a held session
 		x.mu.Lock()
 		var s *c25Sess
@@ -1203,6 +1212,13 @@ func (x *c25Hist) step(rng *verifkit.Rand, si int) {
 	case 8:
 		q.Class = "bad-password"
 		q.pwSent, q.PwKind = "wrong-"+rng.Token(5), "wrong"
+		if x.forceKind == 8 && x.forcePw != "" {
+			q.pwSent, q.PwKind = x.forcePw, "wrong-repeated"
+			r.Add("hist_wrong_password_repeated", 1)
+		}
+		x.mu.Lock()
+		x.lastWrong = q.pwSent
+		x.mu.Unlock()
 	case 9:
 		q.Class = "bad-password"
 		q.pwSent, q.PwKind = "", "empty-string"
@@ -1317,7 +1333,7 @@ func (x *c25Hist) step(rng *verifkit.Rand, si int) {
 }
 
 func c25NewHist(r *verifkit.R, e *c25Env, phase string, ci int, rng *verifkit.Rand, pw, hash string, serial bool) *c25Hist {
-	x := &c25Hist{r: r, e: e, phase: phase, ci: ci, w: newC25Writer(), serial: serial,
+	x := &c25Hist{r: r, e: e, phase: phase, ci: ci, w: newC25Writer(), serial: serial, forceKind: -1,
 		wl: []string{"run", "go", "a", "missing"}}
 	cfg := shell.Config{Enabled: true, Whitelist: x.wl, MaxSessions: rng.Intn(3)}
 	if rng.Chance(7, 8) {
@@ -1373,6 +1389,37 @@ func c25Histories(r *verifkit.R, e *c25Env) {
 		for si := 0; si < steps; si++ {
 			x.step(rng, si)
 		}
+	})
+	// round 5: credentials presented again. On one handler: PRNG prefix, an ordinary request with
+	// the right password, a wrong password, then the SAME wrong password 1..3 more times, with
+	// PRNG steps in between in half of the cases; then the right one again. Every step is judged
+	// by the same rule as everywhere else (a wrong password never starts a process).
+	r.Cases("hist-repeat", r.N(24, 400), func(ci int, rng *verifkit.Rand) {
+		x := c25NewHist(r, e, "hist-repeat", ci, rng, pw, string(hb), true)
+		defer x.finish()
+		si := 0
+		do := func(kind int, pw string) {
+			x.forceKind, x.forcePw = kind, pw
+			x.step(rng, si)
+			x.forceKind, x.forcePw = -1, ""
+			si++
+		}
+		for k := rng.Intn(3); k > 0; k-- {
+			do(-1, "")
+		}
+		if rng.Chance(4, 5) {
+			do(0, "")
+		}
+		do(8, "")
+		wrong := x.lastWrong
+		for k := rng.Range(1, 3); k > 0; k-- {
+			if rng.Chance(1, 4) {
+				do([]int{2, 9, 10}[rng.Intn(3)], "")
+			}
+			do(8, wrong)
+		}
+		do(0, "")
+		do(8, wrong)
 	})
 	r.Cases("hist-par", r.N(2, 60), func(ci int, rng *verifkit.Rand) {
 		x := c25NewHist(r, e, "hist-par", ci, rng, pw, string(hb), false)
